@@ -253,7 +253,9 @@ def step (s : State) : Op → State × List Event
     outermost decorator as its endpoint, so the opt-in works iff that is the TunnelEndpoint -/
 def serviceOps (stats : Bool) (ovs : List (Bytes × Bool)) : List Op :=
   let top := (serviceWrappers stats (ovs.any (·.2))).getLast?
-  ovs.map (fun o => if top = some .tunnel then Op.overlay o.1 o.2 else Op.overlayForeign o.1 o.2)
+  -- the opt-in works if the overlay's endpoint IS the TunnelEndpoint, or if the (translated) guard does not insist on it
+  ovs.map (fun o => if top = some .tunnel || (!optInNeedsTunnelEndpoint && (serviceWrappers stats (ovs.any (·.2))).contains .tunnel)
+                    then Op.overlay o.1 o.2 else Op.overlayForeign o.1 o.2)
 
 /-- the state after a history -/
 def runState (s : State) : List Op → State
